@@ -146,7 +146,13 @@ func runCLIOnce(c *core.Ctx, r *request, n int) runOut {
 		}
 	}
 	if n%2 == 1 {
-		for k, v := range map[string]string{"TZ": "Asia/Tokyo", "LANG": "fr_FR.UTF-8", "LC_ALL": "fr_FR.UTF-8", "USER": "someoneelse", "LOGNAME": "someoneelse",
+		// UTC+14 and UTC-12 are never on the same calendar day: a local DATE written into the output differs
+		// between these two runs at any moment
+		tz := "Pacific/Kiritimati"
+		if n%4 == 3 {
+			tz = "Etc/GMT+12"
+		}
+		for k, v := range map[string]string{"TZ": tz, "LANG": "fr_FR.UTF-8", "LC_ALL": "fr_FR.UTF-8", "USER": "someoneelse", "LOGNAME": "someoneelse",
 			"COLUMNS": "40", "LINES": "10", "TERM": "dumb", "HOSTNAME": "otherhost"} {
 			os.Setenv(k, v)
 		}
@@ -543,7 +549,7 @@ func replay(c *core.Ctx, lines []string) {
 		f := strings.Split(l, "\t")
 		switch {
 		case f[0] == "C18.run" && len(f) >= 7:
-			execute(c, byLine[i], c.Scale(6, 30))
+			execute(c, byLine[i], c.Scale(5, 14))
 		case f[0] == "C18.table":
 			c.Emit("C18.table")
 		case f[0] == "C18.selftest":
@@ -587,11 +593,21 @@ func Run(c *core.Ctx) {
 	c.Emit("C18.table")
 	selfTest(c)
 	inputs := c.Scale(3, 5)
-	nruns := c.Scale(5, 20)
+	nruns := c.Scale(4, 14)
 	for rep := 0; rep < inputs; rep++ {
 		in := genInputs(c, rep)
 		if c.Gotree != "" {
 			reqs := cliTemplates(c, in)
+			if rep >= c.Scale(2, 3) {
+				// the thread sweeps (8 processes per template) on the first inputs only
+				kept := reqs[:0]
+				for _, r := range reqs {
+					if !hasThreadSweep(r) {
+						kept = append(kept, r)
+					}
+				}
+				reqs = kept
+			}
 			earlyRuns(c, reqs)
 			for _, r := range reqs {
 				execute(c, r, nruns)
